@@ -178,6 +178,8 @@ def mk(op, ty, *args):
             return a.args[0]
         if a.op == 'ic' and is_f(ty):
             return fc(ty, decode_bits(ty, a.args[0]))
+        if a.op == 'select':
+            return mk('select', ty, a.args[0], mk('bitcast', ty, a.args[1]), mk('bitcast', ty, a.args[2]))
     elif op == 'fneg':
         (a,) = args
         if a.op == 'fc' and isinstance(a.args[0], Fraction) and a.args[0] != 0:
